@@ -56,7 +56,10 @@ class Contract:
         self.abstract = kw.pop("abstract", [])      # operations treated as uninterpreted functions: "div", "trunc", "mul"
         self.rt_ensures = _named(kw.pop("rt_ensures", []), "rt")   # clauses evaluated only by the bounded run-time layer
         self.concretize = kw.pop("concretize", None)
-        self.total_float_division = kw.pop("total_float_division", False)   # C doubles: x/0 is inf/nan, not a trap
+        self.total_float_division = kw.pop("total_float_division", False)
+        self.light_trig = kw.pop("light_trig", False)
+        self.materialize = kw.pop("materialize", False)
+        self.libm_axioms = kw.pop("libm_axioms", [])       # extra (listed) facts about libm functions, e.g. "arccos-decreasing"    # every computed array becomes a named array + defining axiom (no nested lambdas)      # sin/cos constrained by their range only (no sin^2+cos^2=1)   # C doubles: x/0 is inf/nan, not a trap
         if kw:
             raise TypeError("unknown contract keys %s in %s" % (sorted(kw), name))
 
